@@ -148,6 +148,20 @@ static std::vector<SchedScenario> scenarios(bool thorough) {
         if (thorough && ss.clients.size() > 2) ss.p = 3;
         ss.name = std::string(enh ? "enh" : "plain") + "/prog" + std::to_string(pi) + "/bus" + std::to_string(beh) + "/p" + std::to_string(ss.p);
         v.push_back(ss);
+        // submission while there is no signal: before the first symbol was ever received, and after the signal was lost
+        bool hasWaitOp = false;
+        for (auto& c : ss.clients) for (auto& o : c.ops) if (o.kind == OP_ADD_WAIT_DELETE) hasWaitOp = true;
+        if ((beh == 0 || beh == 3) && (hasWaitOp || thorough)) {
+          std::vector<int> starts;
+          if (beh == 0) starts = {1};
+          else starts = {10, 11};
+          for (int st : starts) {
+            SchedScenario s2 = ss;
+            s2.startRead = st;
+            s2.name += "/start" + std::to_string(st);
+            v.push_back(s2);
+          }
+        }
       }
     }
   }
